@@ -77,6 +77,20 @@ def run(tier, only=None):
         R.case(["reject"], True, section="reject")
         for sig, p in r["bad"]:
             R.violation(sig, {"detail": p})
+    # multi-section surfaces in ground effect (alone, next to an ordinary surface in or out of ground effect): the point must
+    # give the ordinary surface's result for the unified mesh (which the law replay above ties to the explicit image system);
+    # without symmetry the set-up must be refused
+    from .. import multisec
+
+    for r in check_exc(pmap(multisec.equivalence_ground_job, range(8 if tier == "quick" else 80))):
+        R.replayed += 1
+        R.case(["multisec_ground", r["k"]], True, sample=r["case"] if r["k"] == 0 else None, section="multisection")
+        for sig, p in r["bad"]:
+            R.violation(sig, {"k": r["k"], "case": r["case"], "detail": p})
+    for r in check_exc(pmap(multisec.reject_job, range(4 if tier == "quick" else 24))):
+        R.case(["multisec_ground_nosym", r["k"]], True, section="reject")
+        for sig, p in r["bad"]:
+            R.violation(sig, {"k": r["k"], "case": r["case"], "detail": p})
     R.assume("image plane: through h*n with n=(sin a, 0, -cos a), parallel to the free stream; heights keep the geometry above the plane", "far field: error decays >= 5x per decade of h until round-off, < 1e-8 at h = 1e6")
     return R.finish({"exhaustive": True, "depth": depth})
 
